@@ -136,9 +136,14 @@ def run(check, prog):
                         continue
                     w.w(a)
             # conditions of every branch taken
-            for o in res.outcomes:
-                for ct, pol in o.cond:
-                    if ct[0] not in ('loop-iter', 'exc'):
+            seen_c = set()
+            for conds in [o.cond for o in res.outcomes] + \
+                    [e['cond'] for e in it.effects] + [c['cond'] for c in it.calls]:
+                # includes the guards of raising paths inside inlined callees and
+                # loops (a size check against a literal must sit on a pure number)
+                for ct, pol in conds:
+                    if ct[0] not in ('loop-iter', 'exc') and id(ct) not in seen_c:
+                        seen_c.add(id(ct))
                         w.w(ct)
             assumed |= w.assumed
             conflicts = [(m, t) for k, m, t in w.problems if k == 'conflict']
